@@ -129,13 +129,18 @@ func (fs *subDirFS) Walk(ctx context.Context, target string, fn gofs.WalkDirFunc
 		if !fi.IsDir() {
 			return errors.WithStack(&os.PathError{Path: d.Stat.Path, Err: syscall.ENOTDIR, Op: "walk subdir"})
 		}
-		dStat := d.Stat.Clone()
-		if err := fn(d.Stat.Path, &DirEntryInfo{Stat: dStat}, nil); err != nil {
-			if err == filepath.SkipDir {
-				// the callback skips this sub-root, not the whole walk
-				continue
+		// like any other FS, a walk of a target below the sub-root starts at
+		// the target: the sub-root itself is reported only when it is (or is
+		// above) what was asked for
+		if rest == "" {
+			dStat := d.Stat.Clone()
+			if err := fn(d.Stat.Path, &DirEntryInfo{Stat: dStat}, nil); err != nil {
+				if err == filepath.SkipDir {
+					// the callback skips this sub-root, not the whole walk
+					continue
+				}
+				return err
 			}
-			return err
 		}
 		if err := d.FS.Walk(ctx, rest, func(p string, entry gofs.DirEntry, err error) error {
 			if err != nil {
